@@ -63,6 +63,17 @@ func (e Expr) Sub(o Expr) Expr { return e.Add(o.Scale(-1)) }
 
 func (e Expr) IsConst() bool { return len(e.Coef) == 0 }
 
+// IsAtom: the expression is a single atom with coefficient 1.
+func (e Expr) IsAtom() bool {
+	if len(e.Coef) != 1 || e.K != 0 {
+		return false
+	}
+	for _, c := range e.Coef {
+		return c == 1
+	}
+	return false
+}
+
 func (e Expr) String() string {
 	var ks []string
 	for k := range e.Coef {
@@ -110,6 +121,7 @@ type Fn struct {
 	DataLen  string            // canonical atom standing for File.len == len(File.data)
 	imm      func(path string) bool
 	seenPath map[string]bool
+	pending  []func()
 }
 
 // New prepares a function. immutable reports whether a field path (e.g. "r.file.len") may be treated as one
